@@ -389,8 +389,12 @@ pub fn fax_decode(data: &[u8], params: &CCITTFaxDecodeParams) -> Result<Vec<u8>>
         let columns = params.columns as usize;
         let rows = params.rows as usize;
 
+        if columns == 0 || columns > u16::MAX as usize || rows > u16::MAX as usize {
+            bail!("unsupported CCITT geometry: {} columns, {} rows", columns, rows);
+        }
         let height = if params.rows == 0 { None } else { Some(params.rows as u16)};
-        let mut buf = Vec::with_capacity(columns * rows);
+        // rows actually present are bounded by the data, not by /Rows: grow as lines arrive
+        let mut buf = Vec::new();
         decode_g4(data.iter().cloned(), columns as u16, height, |line| {
             buf.extend(pels(line, columns as u16).map(|c| match c {
                 Color::Black => 0,
